@@ -25,8 +25,11 @@ impl Prop for C11Prop {
     }
     fn streams(&self, tier: Tier) -> Vec<Stream> {
         let q = tier == Tier::Quick;
-        let mut v = wf::wf_streams(tier, 2);
-        v.push(Stream::random("tight", if q { 1500 } else { 20000 }, 700));
+        let mut v = wf::wf_streams(tier, 1);
+        v.push(Stream::random("tight", if q { 800 } else { 10000 }, 700));
+        // the strictly asserted domain: simple expressions, small indentation units
+        v.push(Stream::random("simple", if q { 2500 } else { 30000 }, 700));
+        v.push(Stream::random("simple_tight", if q { 2500 } else { 30000 }, 700));
         v
     }
     fn generate(&self, stream: &str, t: &mut Tape) -> Option<Case> {
@@ -40,12 +43,19 @@ impl Prop for C11Prop {
         if w1 > w2 {
             std::mem::swap(&mut w1, &mut w2);
         }
-        let opts = crate::gen::prog::Opts { ascii_only: true, ..Default::default() };
-        let w = wf::build(t, if stream == "tight" { 60 } else { wf::fuel_for(stream) }, opts, None, None)?;
+        let simple = stream.starts_with("simple");
+        let opts = crate::gen::prog::Opts { ascii_only: true, simple, directives: !simple, ..Default::default() };
+        if simple {
+            cfg.tab_width = *t.pick(&[2, 4, 2, 3, 1]);
+            cfg.continuation_indents = *t.pick(&[2, 1, 2]);
+        }
+        let policy = if simple { Some(crate::gen::layout::CommentPolicy::OwnLine) } else { None };
+        let tight = stream.ends_with("tight");
+        let w = wf::build(t, if tight { 60 } else { wf::fuel_for(stream.trim_start_matches("simple")).min(90) }, opts, policy, None)?;
         if !w.input.is_ascii() {
             return None;
         }
-        if stream == "tight" {
+        if tight {
             // boundary-directed widths: W1 within two columns of the length of a line of the
             // result at a generous width, W2 a little wider
             cfg.wrap_column = 250;
@@ -60,6 +70,9 @@ impl Prop for C11Prop {
         }
         cfg.wrap_column = w1;
         let mut c = wf::case_of(&w, cfg.clone(), stream);
+        if simple {
+            c.tags.push("simple-domain".into());
+        }
         c.cfg2 = Some(Cfg { wrap_column: w2, ..cfg });
         Some(c)
     }
@@ -74,6 +87,7 @@ impl Prop for C11Prop {
         let o2 = format_with(c2, &case.input);
         logf.extend(logcap::facts());
         logf.push(if max_line(&o1) > w1 { "narrow-result-overflows".into() } else { "narrow-result-fits".into() });
+        logf.push(if case.tags.iter().any(|t| t == "simple-domain") { "simple-domain".into() } else { "general-domain".into() });
         logf.push(if max_line(&o2) > w2 { "wide-result-overflows".into() } else { "wide-result-fits".into() });
         let fits2in1 = max_line(&o2) <= w1;
         if fits2in1 && o1 != o2 {
